@@ -365,6 +365,14 @@ func buildSource(o Op, dir string, log *evLog) (fsutil.FS, *memFS, []interface{}
 			return nil, nil, nil, err
 		}
 		view = snapsToJSON(snap)
+		if src.boolean("root_symlink") {
+			// the caller names the tree through a symlink (the last component of the root path is a link to the directory)
+			link := filepath.Join(dir, "srclink")
+			if err := os.Symlink("src", link); err != nil {
+				return nil, nil, nil, err
+			}
+			root = link
+		}
 		f, err := fsutil.NewFS(root)
 		if err != nil {
 			return nil, nil, nil, err
@@ -373,6 +381,7 @@ func buildSource(o Op, dir string, log *evLog) (fsutil.FS, *memFS, []interface{}
 	} else {
 		mfs = newMemFS(tree, log)
 		mfs.eofWithData = src.boolean("eof_with_data")
+		mfs.readDelay = time.Duration(src.num("read_delay_us")) * time.Microsecond
 		fs = mfs
 		view = mfs.view()
 	}
